@@ -36,6 +36,12 @@ static Case gen_case() {
   } else {
     c.h = gen_add_history(size * 2);
   }
+  if (chance(4)) {
+    // the writer starts far into a sparse file: offsets beyond 2^31 and 2^32
+    c.h.cfg.sparse_off = one_of<unsigned long long>({(1ull << 31) - 100, (1ull << 31) + 5, 3ull << 30, (1ull << 32) + 4096});
+    c.h.cfg.prefix_len = 0;
+    c.h.cfg.by_path = false;
+  }
   c.exec_tool = chance(1);
   return c;
 }
@@ -61,8 +67,10 @@ static Result run_case(const Case &c) {
       r.failf("writer could not be created");
       return;
     }
-    bytes img = fd_contents(fd);
-    ref::DFile df = ref::decode_file(img);
+    uint64_t base = c.h.cfg.sparse_off;
+    bytes img = base ? fd_tail(fd, base) : fd_contents(fd);
+    ref::DFile df = ref::decode_file(img, base);
+    if (base) r.tag("sparse_offset_ge_2GiB");
     if (!df.err.empty()) {
       r.failf("independent decoder rejects the file: %s", df.err.c_str());
       return;
@@ -89,7 +97,7 @@ static Result run_case(const Case &c) {
               (unsigned long long)m_keys, (unsigned long long)m_vals);
       return;
     }
-    uint64_t t_index_off = c.h.cfg.prefix_bytes().size() + t_data;
+    uint64_t t_index_off = base + (base ? 0 : c.h.cfg.prefix_bytes().size()) + t_data;
     struct {
       const char *name;
       uint64_t truth;
@@ -99,7 +107,7 @@ static Result run_case(const Case &c) {
         {"index_block_offset", t_index_off},   {"data_block_size", c.h.cfg.eff_block_size()},
         {"compression_algorithm", (uint64_t)c.h.cfg.eff_comp()}, {"file_version", 1 /* MTBL_FORMAT_V2 */},
     };
-    if (img.size() != t_index_off + df.index.total() + 512) r.failf("file size inconsistent with decoded blocks");
+    if (base + img.size() != t_index_off + df.index.total() + 512) r.failf("file size inconsistent with decoded blocks");
     struct mtbl_reader *rd = open_reader_fd(fd);
     if (!rd) {
       r.failf("reader rejects the written file");
@@ -125,7 +133,7 @@ static Result run_case(const Case &c) {
         struct {
           const char *label;
           uint64_t truth;
-        } iw[] = {{"file size:", img.size()},          {"index block offset:", t_index_off}, {"index bytes:", df.index.total()},
+        } iw[] = {{"file size:", base + img.size()},          {"index block offset:", t_index_off}, {"index bytes:", df.index.total()},
                   {"data block bytes", t_data},        {"data block size:", c.h.cfg.eff_block_size()},
                   {"data block count", df.data.size()}, {"entry count:", t_entries},         {"key bytes:", t_keys},
                   {"value bytes:", t_vals}};
